@@ -1,5 +1,5 @@
 """C19 -- outbound messages are whole and in order under every I/O schedule (lock discipline)."""
-from pyvc.runner import Check, TaskSpec, run_tasks
+from pyvc.runner import Check, TaskSpec, run_tasks, PY_FULL
 from contracts import transport as T
 from checks import common
 
@@ -15,7 +15,7 @@ def run(tier, seed):
         "That O1..O5 imply whole, non-interleaved, in-order output for every completion order of the awaited operations -- including a connection whose drain never completes, "
         "which delays only tasks waiting for the same lock -- is an argument about asyncio (tasks start in creation order, asyncio.Lock wakes waiters FIFO, "
         "StreamWriter.write appends atomically); it is ASSUMED, not proved: this family of technique does not model the scheduler. Hence level 'other', not 'proof'.")
-    specs = [TaskSpec("discipline[%s]" % w, "contracts.transport", "task_c19", (w,)) for w in ("tcp-server", "tcp-client", "tty")]
+    specs = [TaskSpec("discipline[%s]" % w, "contracts.transport", "task_c19", (w,), replay_kind="transport.order", python=PY_FULL, scenario=True) for w in ("tcp-server", "tcp-client", "tty")]
     chk.add_results(run_tasks(specs))
     for f in (T.TCP_S, T.TTY_S):
         chk.function(f, "ConnectionHandler.message_from_device")
@@ -27,6 +27,9 @@ def run(tier, seed):
         "asyncio scheduling semantics (task start order, Lock FIFO wake-up, atomic StreamWriter.write): ASSUMED",
         "IndiMessage.to_string abstracted (C03); aiofiles write/flush are awaitables of the stream object",
     ]
+    chk.standin_on_out_of_reach("native write-order schedules", "transport.order", {"length": 7 if tier == "quick" else 9}, python=PY_FULL, always=True, timeout=1500,
+                                bound_text="real tcp-server, tty and tcp-client senders with gated fake writers: bursts of 2..4 messages x every schedule word over {route, open oldest gate, loop turn} of "
+                                           "length 7 (thorough 9) beginning with a route; one more connection whose drain never completes is registered throughout")
     chk.require_canary = False
     chk.min_obligations = 20
     return chk.finish()
